@@ -33,11 +33,17 @@ func (rc *arrayCodec) Read(r *ReadBuf, p unsafe.Pointer) error {
 			}
 		}
 
-		// If our array is nil or undersized then we can fix it up here.
-		*sh = rc.resizeSlice(*sh, int(count))
+		// If our array is nil or undersized then we can fix it up here. The
+		// count is not trusted for allocation beyond what the remaining input
+		// could hold; if there really are more (zero-width) items the slice
+		// grows as they are read.
+		*sh = rc.resizeSlice(*sh, int(min(count, int64(r.Len())+1)))
 
 		itemSize := rc.itemType.Size()
 		for i := int64(0); i < count; i++ {
+			if sh.Len == sh.Cap {
+				*sh = rc.resizeSlice(*sh, max(sh.Cap, 1))
+			}
 			cursor := unsafe.Pointer(uintptr(sh.Data) + uintptr(sh.Len)*itemSize)
 			if err := rc.itemCodec.Read(r, cursor); err != nil {
 				return fmt.Errorf("failed to decode array entry %d. %w", i, err)
